@@ -17,6 +17,7 @@ import (
 	"time"
 
 	v2 "mosn.io/mosn/pkg/config/v2"
+	"mosn.io/mosn/pkg/types"
 	"pgregory.net/rapid"
 
 	"verif/ev"
@@ -41,7 +42,13 @@ type stream struct {
 	Cuts   []int // write boundaries (sorted offsets strictly inside the stream)
 	Gaps   []int // ms after each piece
 	Mode   string
+	// long-pause mode: bytes of the incomplete frame that are pending during the pause, bytes delivered before that frame
+	StallPending, StallAfter int
 }
+
+// segReadTimeout replaces types.DefaultConnReadTimeout (15 s) while this part runs, so that a sender's stall can
+// outlast it within a case.
+const segReadTimeout = 40 * time.Millisecond
 
 func (s *stream) bytes() []byte { return bytes.Join(s.Frames, nil) }
 
@@ -173,6 +180,23 @@ func genStream() *rapid.Generator[hold[stream]] {
 				g = 1 // the first bytes really arrive one per read (protocol detection sees every growing prefix)
 			}
 			s.Gaps = append(s.Gaps, g)
+		}
+		if rapid.IntRange(0, 4).Draw(t, "longPause") == 0 {
+			// the sender stalls in the middle of a frame for longer than the proxy's read timeout (lowered to
+			// segReadTimeout for this part): everything up to the cut in one write, a pause of three timeouts, the rest
+			j := rapid.IntRange(0, len(s.Frames)-1).Draw(t, "stalledFrame")
+			start := 0
+			if j > 0 {
+				start = s.Bounds[j-1]
+			}
+			if n := s.Bounds[j] - start; n >= 2 {
+				p := rapid.IntRange(1, n-1).Draw(t, "stallAfter")
+				if n > 140 && rapid.Bool().Draw(t, "stallNearHead") {
+					p = rapid.IntRange(1, 127).Draw(t, "stallAfterHead")
+				}
+				s.Cuts, s.Gaps, s.Mode = []int{start + p}, []int{int(3 * segReadTimeout / time.Millisecond)}, "long-pause"
+				s.StallPending, s.StallAfter = p, start
+			}
 		}
 		return hold[stream]{s, fmt.Sprintf("%s %d frames %v bytes, %s, %d cuts", s.Proto, len(s.Frames), s.Bounds, s.Mode, len(s.Cuts))}
 	})
@@ -323,6 +347,7 @@ func sum(b []byte) uint64 { // FNV-1a: a fingerprint of the bytes
 }
 
 func TestPropE2ESegmentation(t *testing.T) {
+	types.DefaultConnReadTimeout = segReadTimeout
 	ev.Check(t, func(rt *rapid.T) {
 		s := genStream().Draw(rt, "stream").P
 		inside := 0
@@ -341,6 +366,16 @@ func TestPropE2ESegmentation(t *testing.T) {
 		}
 		if inside > 0 {
 			classes = append(classes, "cut-inside-frame")
+		}
+		if s.Mode == "long-pause" {
+			switch {
+			case s.StallPending >= 129:
+				classes = append(classes, "stall-beyond-read-timeout:>128-bytes-of-the-frame-pending")
+			case s.StallAfter+s.StallPending >= 160:
+				classes = append(classes, "stall-beyond-read-timeout:<128-bytes-pending-after-a-large-read")
+			default:
+				classes = append(classes, "stall-beyond-read-timeout:small-stream")
+			}
 		}
 		nontrivial := len(s.Frames) >= 2 && inside > 0
 		raw := s.bytes()
